@@ -26,6 +26,9 @@ type Program struct {
 	SSA     *ssa.Program
 	SSAPkgs map[string]*ssa.Package
 	NFuncs  int
+
+	allFns     map[*ssa.Function]bool
+	fnsByShort map[string][]*ssa.Function
 }
 
 // minRepoPackages is the floor confirmed by hand on today's tree: main, lib,
@@ -177,9 +180,18 @@ func (p *Program) Func(short, name string) *ssa.Function {
 
 // RepoFuncs returns all source functions (including closures) of one repo package, sorted by position.
 func (p *Program) RepoFuncs(short string) []*ssa.Function {
+	if p.fnsByShort == nil {
+		p.fnsByShort = map[string][]*ssa.Function{}
+	}
+	if cached, ok := p.fnsByShort[short]; ok {
+		return cached
+	}
+	if p.allFns == nil {
+		p.allFns = ssautil.AllFunctions(p.SSA)
+	}
 	var out []*ssa.Function
 	path := pkgPath(short)
-	for fn := range ssautil.AllFunctions(p.SSA) {
+	for fn := range p.allFns {
 		if fn.Pkg == nil || fn.Pkg.Pkg.Path() != path || fn.Synthetic != "" || len(fn.Blocks) == 0 {
 			continue
 		}
@@ -191,6 +203,7 @@ func (p *Program) RepoFuncs(short string) []*ssa.Function {
 		}
 		return out[i].String() < out[j].String()
 	})
+	p.fnsByShort[short] = out
 	return out
 }
 
